@@ -116,8 +116,8 @@ def frontierLoads (s : Store) (ch : Nat) : Bool :=
   if l = 0 then true else
   match get s (.pl ch l) with
   | some (.prop b la cmd t pt) =>
-    la = l ∧ get s (.pc ch cmd) = some (.prop b la cmd t pt) ∧
-    (match get s (.ent ch l) with | some (.ent i cmd' t' _) => i = l ∧ cmd' = cmd ∧ t' = t | _ => false)
+    la == l && get s (.pc ch cmd) == some (.prop b la cmd t pt) &&
+    (match get s (.ent ch l) with | some (.ent i cmd' t' _) => i == l && cmd' == cmd && t' == t | _ => false)
   | _ => false
 
 def tailTerm (s : Store) (ch : Nat) : Nat :=
